@@ -762,7 +762,15 @@ def check(run):
                 break
         else:
             continue
-        vs = G.near_duplicates(near_rng, base)
+        if n % 5 == 4:
+            # a WITHIN window around two observations, alone or next to the drawn pattern: only the window varies
+            ty = near_rng.choice(G.TYPES)
+            two = (near_rng.choice(["oand", "ofby"]), [("obs", g2.atom(ty)), ("obs", g2.atom(near_rng.choice([ty, near_rng.choice(G.TYPES)])))])
+            win = ("qual", two, ("within", near_rng.choice([0, 1, 1, 5])))
+            base = win if near_rng.random() < 0.6 or G.size(base) > 12 else G.normalize_shape(("oor", [win, base]))
+            vs = G.near_duplicates(near_rng, base, force_qualifier=True)
+        else:
+            vs = G.near_duplicates(near_rng, base)
         texts = []
         for ast, _name in vs:
             try:
